@@ -7,6 +7,7 @@ R13.3  mock bodies raise: every path of _transform_to_mock that writes a `def` w
 R13.4  naming agreement: client class / module / Protocol / mock class names are derived from the canonical tag by the
        same functions in all six places
 R13.8  no function of visit/endpoint changes its IROperation (or an alias of one of its attributes) in place: the three renderings see one operation
+R13.14 a success arm returns None only where the strategy's return type is None (no other shortcut removes the yield loop of a streaming method)        [= R5.5]
 R13.13 a model class never takes the name `Protocol` (or another name the tag modules use): client / Protocol module importable next to the mock   [= R20.13]
 R13.12 a stream declared under `default` (the primary response when nothing else is declared) is yielded by the client method: the flag that lets the
        wildcard arm write the strategy's return evaluates to true for a streaming strategy with a default response that has content
@@ -236,6 +237,11 @@ def run(repo: Repo, rep: Report, tier: str) -> None:
     _guarded(rep, rule_range_primary_gets_an_arm, repo, rep, "R13.10")
     _guarded(rep, rule_mocks_after_the_renamer, repo, rep, "R13.11")
     _guarded(rep, rule_streamed_default_is_yielded, repo, rep, "R13.12")
+    # R13.14: a success arm writes `return None` only under the test that the strategy's return type is None - any other shortcut (by HTTP method, by
+    # content) takes the `yield` loop out of a streaming method while its Protocol stub and mock stay async generators              [= R5.5]
+    from rules._reuse import reuse as _reuse1314
+
+    _reuse1314(repo, rep, "c05", {"R5.5": "R13.14"})
     from rules.c20 import rule_models_spare_endpoint_names
 
     _guarded(rep, rule_models_spare_endpoint_names, repo, rep, "R13.13")
